@@ -6,7 +6,7 @@ cd "$(dirname "$0")/.." || exit 2
 out=$(mktemp -d /tmp/regress.XXXXXX)
 ls -d seeded/${1:-*}/ | sed 's#/$##' | xargs -P ${2:-6} -I{} sh -c '
   id=$(basename {}); [ -f {}/patch.diff ] || exit 0
-  chk=$(python3 -c "import json,sys;m=json.load(open(\"{}/meta.json\"));d=m.get(\"detected_by\",{});print(d.get(\"check\") or m.get(\"breaks_property\") or m.get(\"property\"))" 2>/dev/null)
+  chk=$(python3 -c "import json,sys;m=json.load(open(\"{}/meta.json\"));d=m.get(\"detected_by\",dict());print(d.get(\"check\") or m.get(\"breaks_property\") or m.get(\"property\"))" 2>/dev/null)
   [ -n "$chk" ] || chk=$(echo $id | sed "s/^r[0-9]-//" | cut -d- -f1)
   tools/mutant.sh detect {}/patch.diff $chk > '"$out"'/$id.log 2>&1'
 miss=0
